@@ -5,7 +5,10 @@
 (* A scenario sc fixes the stored tracks, the candidates, the feature class,  *)
 (* the only_baked flag and the metric limit:                                  *)
 (*   sc = [tracks : Seq(track), cands : Seq(track), owned : BOOLEAN,          *)
-(*         cls, baked : BOOLEAN, limit]                                       *)
+(*         cls, baked : BOOLEAN, limit, post]                                 *)
+(* post = "all": the metric's post-processing of the results of one (candidate, *)
+(*   stored track) pair keeps everything; "best": it keeps the pair's smallest   *)
+(*   distance(s) only - a user hook that is applied pair by pair.                *)
 (*   track = [id, tag, st, obs : [Classes -> Seq(Nat)]]                       *)
 (* (owned: the candidates are the stored tracks with these ids).              *)
 (*                                                                           *)
@@ -66,9 +69,13 @@ PairDists(c, o) == IF Visible(c, o) /\ HasCls(c) /\ HasCls(o)
                    THEN {<<i, j>> \in (DOMAIN c.obs[sc.cls]) \X (DOMAIN o.obs[sc.cls]) :
                             Abs(c.obs[sc.cls][i], o.obs[sc.cls][j]) <= sc.limit}
                    ELSE {}
+DOf(c, o, ij) == Abs(c.obs[sc.cls][ij[1]], o.obs[sc.cls][ij[2]])
+(* post-processing, pair by pair *)
+Kept(c, o) == LET P == PairDists(c, o) IN
+              IF sc.post = "best" THEN {ij \in P : \A kl \in P : DOf(c, o, ij) <= DOf(c, o, kl)} ELSE P
 OkOf(S) == UNION {{[from |-> sc.cands[p[1]].id, to |-> p[2], i |-> ij[1], j |-> ij[2],
-                    d |-> Abs(sc.cands[p[1]].obs[sc.cls][ij[1]], ById(sc.tracks, p[2]).obs[sc.cls][ij[2]])] :
-                      ij \in PairDists(sc.cands[p[1]], ById(sc.tracks, p[2]))} : p \in S}
+                    d |-> DOf(sc.cands[p[1]], ById(sc.tracks, p[2]), ij)] :
+                      ij \in Kept(sc.cands[p[1]], ById(sc.tracks, p[2]))} : p \in S}
 (* error stream: compatible (and ready) pairs where the class is missing on either side *)
 ErrOf(S) == {[from |-> sc.cands[p[1]].id, to |-> p[2]] :
                p \in {x \in S : /\ Visible(sc.cands[x[1]], ById(sc.tracks, x[2]))
